@@ -143,3 +143,423 @@ Proof.
     exists F2. split; auto. split; [eapply same_trans; eauto|].
     intros ts Hts. apply HP1. destruct HS1 as [_ HU]. rewrite <- HU. apply HP2. rewrite HU. exact Hts.
 Qed.
+
+(** variants that thread the reachability flag of each frame *)
+Lemma pop_opd_spec' F K s m s' : vs_ctrls s = F :: K -> pop_opd s = Some (m, s') ->
+  exists F', vs_ctrls s' = F' :: K /\ shape F F' /\ unr F' = unr F /\
+    forall ts t, conc (opds F') (unr F') ts -> mk_match m t -> conc (opds F) (unr F) (t :: ts).
+Proof.
+  intros HC E. destruct (pop_opd_spec _ _ _ _ _ HC E) as (F' & H1 & [H2 H3] & H4).
+  exists F'. rewrite H3. auto.
+Qed.
+Lemma pop_expect_spec' F K e s r s' : vs_ctrls s = F :: K -> pop_expect e s = Some (r, s') ->
+  exists F', vs_ctrls s' = F' :: K /\ shape F F' /\ unr F' = unr F /\
+    forall ts t, conc (opds F') (unr F') ts -> mk_match r t -> conc (opds F) (unr F) (t :: ts) /\ mk_match e t.
+Proof.
+  intros HC E. destruct (pop_expect_spec _ _ _ _ _ _ HC E) as (F' & H1 & [H2 H3] & H4).
+  exists F'. rewrite H3. auto.
+Qed.
+Lemma pop_known_spec' F K t s s' : vs_ctrls s = F :: K -> pop_known t s = Some s' ->
+  exists F', vs_ctrls s' = F' :: K /\ shape F F' /\ unr F' = unr F /\
+    forall ts, conc (opds F') (unr F') ts -> conc (opds F) (unr F) (t :: ts).
+Proof.
+  intros HC E. destruct (pop_known_spec _ _ _ _ _ HC E) as (F' & H1 & [H2 H3] & H4).
+  exists F'. rewrite H3. auto.
+Qed.
+Lemma pop_opds_spec' F K bt s s' : vs_ctrls s = F :: K -> pop_opds bt s = Some s' ->
+  exists F', vs_ctrls s' = F' :: K /\ shape F F' /\ unr F' = unr F /\
+    forall ts, conc (opds F') (unr F') ts -> conc (opds F) (unr F) (bt_list bt ++ ts).
+Proof.
+  intros HC E. destruct (pop_opds_spec _ _ _ _ _ HC E) as (F' & H1 & [H2 H3] & H4).
+  exists F'. rewrite H3. auto.
+Qed.
+Lemma pop_params_spec' F K ps s s' : vs_ctrls s = F :: K -> pop_params ps s = Some s' ->
+  exists F', vs_ctrls s' = F' :: K /\ shape F F' /\ unr F' = unr F /\
+    forall ts, conc (opds F') (unr F') ts -> conc (opds F) (unr F) (ps ++ ts).
+Proof.
+  intros HC E. destruct (pop_params_spec _ _ _ _ _ HC E) as (F' & H1 & [H2 H3] & H4).
+  exists F'. rewrite H3. auto.
+Qed.
+
+(** ** The typing context described by a validation state *)
+Definition dummy_ft : functype := {| ft_params := []; ft_result := None |}.
+Definition mkC (c : vctx) (labels : list blocktype) : tctx :=
+  {| tc_types := vc_types c;
+     tc_funcs := map (fun ti => nth ti (vc_types c) dummy_ft) (vc_funcs c);
+     tc_globals := vc_globals c; tc_locals := vc_locals c;
+     tc_memory := vc_memory c; tc_table := vc_table c;
+     tc_labels := labels; tc_return := last labels None |}.
+
+Lemma get_func_tc c L f ft : get_func c f = Some ft -> nth_error (tc_funcs (mkC c L)) f = Some ft.
+Proof.
+  unfold get_func, get_type. destruct (nth_error (vc_funcs c) f) as [ti|] eqn:E; [|discriminate].
+  intros H. cbn [mkC tc_funcs]. rewrite (map_nth_error _ _ _ E). f_equal. now apply nth_error_nth.
+Qed.
+
+Lemma get_label_map s l : get_label s l = nth_error (map fr_label (vs_ctrls s)) l.
+Proof.
+  unfold get_label. generalize (vs_ctrls s). intros cs. revert l.
+  induction cs as [|f r IH]; intros [|l]; cbn; auto.
+Qed.
+
+Lemma outermost_label s f : outermost s = Some f -> last (map fr_label (vs_ctrls s)) None = fr_label f.
+Proof.
+  unfold outermost. generalize (vs_ctrls s). intros cs.
+  induction cs as [|a r IH]; cbn [map last]; [discriminate|].
+  destruct r as [|b r']; cbn [map] in *; [intros E; inversion E; reflexivity|]. exact IH.
+Qed.
+Lemma outermost_some s F K : vs_ctrls s = F :: K -> exists f, outermost s = Some f.
+Proof.
+  unfold outermost. intros ->. generalize F. induction K as [|a r IH]; intros G; cbn [map last]; eauto.
+  apply (IH a).
+Qed.
+
+Lemma guard_true b u : guard b = Some u -> b = true.
+Proof. destruct b; [auto|discriminate]. Qed.
+Lemma blocktype_eqb_eq a b : blocktype_eqb a b = true -> a = b.
+Proof. destruct a as [[]|], b as [[]|]; cbn; congruence. Qed.
+
+Ltac bind H :=
+  match type of H with
+  | obind ?x _ = Some _ =>
+      let E := fresh "E" in destruct x eqn:E; [cbn [obind] in H|discriminate H]
+  end.
+Ltac grd E := apply guard_true in E.
+
+Lemma shape_with_opds F F' o : shape F F' -> shape F (with_opds F' o).
+Proof. intros (A & B & C). repeat split; auto. Qed.
+
+Lemma vstep_basic_sound c s F K b al s' :
+  vs_ctrls s = F :: K -> vstep_basic c s b al = Some s' ->
+  exists F', vs_ctrls s' = F' :: K /\ shape F F' /\
+    forall ts', conc (opds F') (unr F') ts' ->
+      exists ts, conc (opds F) (unr F) ts /\ basic_ok (mkC c (map fr_label (F :: K))) b ts ts'.
+Proof.
+  intros HC H.
+  pose proof (get_label_map s) as GL. rewrite HC in GL.
+  destruct b; cbn [vstep_basic] in H.
+  - (* unreachable *)
+    destruct (mark_unreachable_spec _ _ _ _ HC H) as (F' & HC' & HS & HO & HU).
+    exists F'. split; auto. split; auto. intros ts' _. destruct (conc_inhabited (opds F) (unr F)) as [ts Hts].
+    exists ts. split; auto. constructor.
+  - (* nop *)
+    inversion H; subst. exists F. split; auto. split; [apply shape_refl|]. intros ts' Hts. exists ts'. split; auto. constructor.
+  - (* br *)
+    bind H. rename b into lt. bind H.
+    destruct (pop_opds_spec' _ _ _ _ _ HC E0) as (F1 & HC1 & HS1 & HU1 & HP1).
+    destruct (mark_unreachable_spec _ _ _ _ HC1 H) as (F' & HC' & HS & HO & HU).
+    exists F'. split; auto. split; [eapply shape_trans; eauto|]. intros ts' _.
+    destruct (conc_inhabited (opds F1) (unr F1)) as [ts1 Hts1].
+    exists (bt_list lt ++ ts1). split; [auto|]. constructor. cbn [mkC tc_labels]. rewrite <- GL. exact E.
+  - (* br_if *)
+    bind H. rename b into lt. bind H. bind H. inversion H; subst; clear H.
+    destruct (pop_known_spec' _ _ _ _ _ HC E0) as (F1 & HC1 & HS1 & HU1 & HP1).
+    destruct (pop_opds_spec' _ _ _ _ _ HC1 E1) as (F2 & HC2 & HS2 & HU2 & HP2).
+    eexists. split; [apply push_opds_ctrls; eauto|]. split; [apply shape_with_opds; eapply shape_trans; eauto|].
+    cbn [with_opds fr_opds fr_unreachable]. intros ts' Hts'. apply conc_bt_inv in Hts'. destruct Hts' as (ts & -> & Hts).
+    exists (T_i32 :: bt_list lt ++ ts). split; [auto|]. constructor. cbn [mkC tc_labels]. rewrite <- GL. exact E.
+  - (* br_table *)
+    bind H. grd E. bind H. rename b into dlt. bind H. grd E1. bind H. bind H.
+    destruct (pop_known_spec' _ _ _ _ _ HC E2) as (F1 & HC1 & HS1 & HU1 & HP1).
+    destruct (pop_opds_spec' _ _ _ _ _ HC1 E3) as (F2 & HC2 & HS2 & HU2 & HP2).
+    destruct (mark_unreachable_spec _ _ _ _ HC2 H) as (F' & HC' & HS & HO & HU).
+    exists F'. split; auto. split; [eapply shape_trans; [|eauto]; eapply shape_trans; eauto|]. intros ts' _.
+    destruct (conc_inhabited (opds F2) (unr F2)) as [ts2 Hts2].
+    exists (T_i32 :: bt_list dlt ++ ts2). split; [auto|]. constructor; cbn [mkC tc_labels].
+    + rewrite <- GL. exact E0.
+    + apply Forall_forall. intros l Hl. rewrite forallb_forall in E1. specialize (E1 _ Hl).
+      rewrite <- GL. destruct (get_label s l) as [lt|]; [|discriminate]. apply blocktype_eqb_eq in E1. congruence.
+  - (* return *)
+    destruct (outermost_some _ _ _ HC) as [f Hf]. rewrite Hf in H. bind H.
+    destruct (pop_opds_spec' _ _ _ _ _ HC E) as (F1 & HC1 & HS1 & HU1 & HP1).
+    destruct (mark_unreachable_spec _ _ _ _ HC1 H) as (F' & HC' & HS & HO & HU).
+    exists F'. split; auto. split; [eapply shape_trans; eauto|]. intros ts' _.
+    destruct (conc_inhabited (opds F1) (unr F1)) as [ts1 Hts1].
+    exists (bt_list (fr_label f) ++ ts1). split; [auto|].
+    pose proof (outermost_label _ _ Hf) as OL. rewrite HC in OL.
+    replace (fr_label f) with (tc_return (mkC c (map fr_label (F :: K)))) by (cbn [mkC tc_return]; exact OL).
+    constructor.
+  - (* call *)
+    bind H. bind H. inversion H; subst; clear H.
+    destruct (pop_params_spec' _ _ _ _ _ HC E0) as (F1 & HC1 & HS1 & HU1 & HP1).
+    eexists. split; [apply push_opds_ctrls; eauto|]. split; [apply shape_with_opds; auto|].
+    cbn [with_opds fr_opds fr_unreachable]. intros ts' Hts'. apply conc_bt_inv in Hts'. destruct Hts' as (ts & -> & Hts).
+    exists (rev (ft_params f0) ++ ts). split; [auto|]. constructor. apply get_func_tc. exact E.
+  - (* call_indirect *)
+    bind H. grd E. bind H. bind H. bind H. inversion H; subst; clear H.
+    destruct (pop_known_spec' _ _ _ _ _ HC E1) as (F1 & HC1 & HS1 & HU1 & HP1).
+    destruct (pop_params_spec' _ _ _ _ _ HC1 E2) as (F2 & HC2 & HS2 & HU2 & HP2).
+    eexists. split; [apply push_opds_ctrls; eauto|]. split; [apply shape_with_opds; eapply shape_trans; eauto|].
+    cbn [with_opds fr_opds fr_unreachable]. intros ts' Hts'. apply conc_bt_inv in Hts'. destruct Hts' as (ts & -> & Hts).
+    exists (T_i32 :: rev (ft_params f) ++ ts). split; [auto|]. constructor; auto.
+  - (* drop *)
+    bind H. destruct p as [m s1]. inversion H; subst; clear H. cbn [snd].
+    destruct (pop_opd_spec' _ _ _ _ _ HC E) as (F1 & HC1 & HS1 & HU1 & HP1).
+    exists F1. split; auto. split; auto. intros ts' Hts'.
+    exists ((match m with Known t => t | Unknown => T_i32 end) :: ts'). split; [|constructor].
+    apply HP1; auto. destruct m; cbn; auto.
+  - (* select *)
+    bind H. bind H. destruct p as [m1 s2]. cbn [fst snd] in H. bind H. destruct p as [m2 s3]. cbn [fst snd] in H.
+    inversion H; subst; clear H.
+    destruct (pop_known_spec' _ _ _ _ _ HC E) as (F1 & HC1 & HS1 & HU1 & HP1).
+    destruct (pop_opd_spec' _ _ _ _ _ HC1 E0) as (F2 & HC2 & HS2 & HU2 & HP2).
+    destruct (pop_expect_spec' _ _ _ _ _ _ HC2 E1) as (F3 & HC3 & HS3 & HU3 & HP3).
+    eexists. split; [apply push_opd_ctrls; eauto|].
+    split; [apply shape_with_opds; eapply shape_trans; [|eauto]; eapply shape_trans; eauto|].
+    cbn [with_opds fr_opds fr_unreachable]. intros ts' Hts'. apply conc_cons_inv in Hts'.
+    destruct Hts' as (t & ts & -> & Hm & Hts). destruct (HP3 _ _ Hts Hm) as [Q1 Q2].
+    exists (T_i32 :: t :: t :: ts). split; [auto|]. constructor.
+  - (* local.get *)
+    bind H. inversion H; subst; clear H.
+    eexists. split; [apply push_opd_ctrls; eauto|]. split; [apply shape_with_opds; apply shape_refl|].
+    cbn [with_opds fr_opds fr_unreachable]. intros ts' Hts'. apply conc_known_inv in Hts'. destruct Hts' as (ts & -> & Hts).
+    exists ts. split; auto. constructor. exact E.
+  - (* local.set *)
+    bind H. destruct (pop_known_spec' _ _ _ _ _ HC H) as (F1 & HC1 & HS1 & HU1 & HP1).
+    exists F1. split; auto. split; auto. intros ts' Hts'. exists (v :: ts'). split; auto. constructor. exact E.
+  - (* local.tee *)
+    bind H. bind H. destruct p as [r s1]. cbn [fst snd] in H. inversion H; subst; clear H.
+    destruct (pop_expect_spec' _ _ _ _ _ _ HC E0) as (F1 & HC1 & HS1 & HU1 & HP1).
+    eexists. split; [apply push_opd_ctrls; eauto|]. split; [apply shape_with_opds; auto|].
+    cbn [with_opds fr_opds fr_unreachable]. intros ts' Hts'. apply conc_cons_inv in Hts'.
+    destruct Hts' as (t & ts & -> & Hm & Hts). destruct (HP1 _ _ Hts Hm) as [Q1 Q2]. cbn in Q2. subst.
+    exists (t :: ts). split; auto. constructor. exact E.
+  - (* global.get *)
+    bind H. destruct p as [gt gm]. inversion H; subst; clear H. cbn [fst].
+    eexists. split; [apply push_opd_ctrls; eauto|]. split; [apply shape_with_opds; apply shape_refl|].
+    cbn [with_opds fr_opds fr_unreachable]. intros ts' Hts'. apply conc_known_inv in Hts'. destruct Hts' as (ts & -> & Hts).
+    exists ts. split; auto. econstructor. exact E.
+  - (* global.set *)
+    bind H. destruct p as [gt gm]. cbn [fst snd] in H. bind H. grd E0. subst.
+    destruct (pop_known_spec' _ _ _ _ _ HC H) as (F1 & HC1 & HS1 & HU1 & HP1).
+    exists F1. split; auto. split; auto. intros ts' Hts'. exists (gt :: ts'). split; auto. constructor. exact E.
+  - (* load *)
+    bind H. grd E. bind H. grd E0. bind H. bind H. inversion H; subst; clear H.
+    destruct (pop_known_spec' _ _ _ _ _ HC E2) as (F1 & HC1 & HS1 & HU1 & HP1).
+    eexists. split; [apply push_opd_ctrls; eauto|]. split; [apply shape_with_opds; auto|].
+    cbn [with_opds fr_opds fr_unreachable]. intros ts' Hts'. apply conc_known_inv in Hts'. destruct Hts' as (ts & -> & Hts).
+    exists (T_i32 :: ts). split; auto. constructor; auto.
+    destruct pk as [[[] ?]|]; cbn; auto. destruct t; cbn in E0; congruence.
+  - (* store *)
+    bind H. grd E. bind H. grd E0. bind H. bind H.
+    destruct (pop_known_spec' _ _ _ _ _ HC E2) as (F1 & HC1 & HS1 & HU1 & HP1).
+    destruct (pop_known_spec' _ _ _ _ _ HC1 H) as (F2 & HC2 & HS2 & HU2 & HP2).
+    exists F2. split; auto. split; [eapply shape_trans; eauto|]. intros ts' Hts'.
+    exists (t :: T_i32 :: ts'). split; auto. constructor; auto.
+    destruct pk as [[]|]; cbn; auto. destruct t; cbn in E0; congruence.
+  - (* memory.size *)
+    bind H. grd E. inversion H; subst; clear H.
+    eexists. split; [apply push_opd_ctrls; eauto|]. split; [apply shape_with_opds; apply shape_refl|].
+    cbn [with_opds fr_opds fr_unreachable]. intros ts' Hts'. apply conc_known_inv in Hts'. destruct Hts' as (ts & -> & Hts).
+    exists ts. split; auto. constructor; auto.
+  - (* memory.grow *)
+    bind H. grd E. bind H. inversion H; subst; clear H.
+    destruct (pop_known_spec' _ _ _ _ _ HC E0) as (F1 & HC1 & HS1 & HU1 & HP1).
+    eexists. split; [apply push_opd_ctrls; eauto|]. split; [apply shape_with_opds; auto|].
+    cbn [with_opds fr_opds fr_unreachable]. intros ts' Hts'. apply conc_known_inv in Hts'. destruct Hts' as (ts & -> & Hts).
+    exists (T_i32 :: ts). split; auto. constructor; auto.
+  - (* const *)
+    inversion H; subst; clear H.
+    eexists. split; [apply push_opd_ctrls; eauto|]. split; [apply shape_with_opds; apply shape_refl|].
+    cbn [with_opds fr_opds fr_unreachable]. intros ts' Hts'. apply conc_known_inv in Hts'. destruct Hts' as (ts & -> & Hts).
+    exists ts. split; auto. constructor.
+  - (* unop *)
+    bind H. grd E. bind H. inversion H; subst; clear H.
+    destruct (pop_known_spec' _ _ _ _ _ HC E0) as (F1 & HC1 & HS1 & HU1 & HP1).
+    eexists. split; [apply push_opd_ctrls; eauto|]. split; [apply shape_with_opds; auto|].
+    cbn [with_opds fr_opds fr_unreachable]. intros ts' Hts'. apply conc_known_inv in Hts'. destruct Hts' as (ts & -> & Hts).
+    exists (t :: ts). split; auto. constructor.
+    unfold unop_ok in E. apply andb_true_iff in E. destruct E as [_ E]. destruct op; cbn; auto. destruct t; [discriminate|auto].
+  - (* binop *)
+    bind H. bind H. inversion H; subst; clear H.
+    destruct (pop_known_spec' _ _ _ _ _ HC E) as (F1 & HC1 & HS1 & HU1 & HP1).
+    destruct (pop_known_spec' _ _ _ _ _ HC1 E0) as (F2 & HC2 & HS2 & HU2 & HP2).
+    eexists. split; [apply push_opd_ctrls; eauto|]. split; [apply shape_with_opds; eapply shape_trans; eauto|].
+    cbn [with_opds fr_opds fr_unreachable]. intros ts' Hts'. apply conc_known_inv in Hts'. destruct Hts' as (ts & -> & Hts).
+    exists (t :: t :: ts). split; auto. constructor.
+  - (* eqz *)
+    bind H. inversion H; subst; clear H.
+    destruct (pop_known_spec' _ _ _ _ _ HC E) as (F1 & HC1 & HS1 & HU1 & HP1).
+    eexists. split; [apply push_opd_ctrls; eauto|]. split; [apply shape_with_opds; auto|].
+    cbn [with_opds fr_opds fr_unreachable]. intros ts' Hts'. apply conc_known_inv in Hts'. destruct Hts' as (ts & -> & Hts).
+    exists (t :: ts). split; auto. constructor.
+  - (* relop *)
+    bind H. bind H. inversion H; subst; clear H.
+    destruct (pop_known_spec' _ _ _ _ _ HC E) as (F1 & HC1 & HS1 & HU1 & HP1).
+    destruct (pop_known_spec' _ _ _ _ _ HC1 E0) as (F2 & HC2 & HS2 & HU2 & HP2).
+    eexists. split; [apply push_opd_ctrls; eauto|]. split; [apply shape_with_opds; eapply shape_trans; eauto|].
+    cbn [with_opds fr_opds fr_unreachable]. intros ts' Hts'. apply conc_known_inv in Hts'. destruct Hts' as (ts & -> & Hts).
+    exists (t :: t :: ts). split; auto. constructor.
+  - (* cvt *)
+    bind H. inversion H; subst; clear H.
+    destruct (pop_known_spec' _ _ _ _ _ HC E) as (F1 & HC1 & HS1 & HU1 & HP1).
+    eexists. split; [apply push_opd_ctrls; eauto|]. split; [apply shape_with_opds; auto|].
+    cbn [with_opds fr_opds fr_unreachable]. intros ts' Hts'. apply conc_known_inv in Hts'. destruct Hts' as (ts & -> & Hts).
+    exists (fst (cvt_types op) :: ts). split; auto. destruct op; constructor.
+  - discriminate.
+Qed.
+
+(** ** Closing frames *)
+Lemma pop_ctrl_spec F K s res isif s2 : vs_ctrls s = F :: K -> pop_ctrl s = Some (res, isif, s2) ->
+  res = fr_end F /\ isif = fr_is_if F /\ vs_ctrls s2 = K /\ conc (opds F) (unr F) (bt_list (fr_end F)).
+Proof.
+  intros HC. unfold pop_ctrl. rewrite HC. destruct (pop_opds (fr_end F) s) as [s1|] eqn:E; [|discriminate].
+  destruct (pop_opds_spec' _ _ _ _ _ HC E) as (F1 & HC1 & HS1 & HU1 & HP1). rewrite HC1.
+  destruct (opds F1) eqn:EO; [|discriminate]. intros H; inversion H; subst. repeat split; auto.
+  specialize (HP1 []). rewrite app_nil_r in HP1. apply HP1. rewrite EO. apply conc_nil.
+Qed.
+
+Lemma vrun_strict_cons c s F K o r sf : vs_ctrls s = F :: K -> vrun_strict c s (o :: r) = Some sf ->
+  exists s1, vstep c s o = Some s1 /\ vrun_strict c s1 r = Some sf.
+Proof.
+  intros HC. cbn [vrun_strict]. rewrite HC. destruct (vstep c s o) as [s1|]; [|discriminate]. eauto.
+Qed.
+
+Lemma end_step c s F0 K' dl s3 : vs_ctrls s = F0 :: K' -> fst dl = OEnd -> vstep c s dl = Some s3 ->
+  exists s2, vs_ctrls s2 = K' /\ s3 = push_opds (fr_end F0) s2 /\
+    conc (opds F0) (unr F0) (bt_list (fr_end F0)) /\ (fr_is_if F0 = true -> fr_end F0 = None).
+Proof.
+  intros HC HD. unfold vstep. rewrite HD. intros H. bind H. destruct p as [[res isif] s2].
+  destruct (pop_ctrl_spec _ _ _ _ _ _ HC E) as (-> & -> & HC2 & HCn). bind H. grd E0. inversion H; subst.
+  exists s2. repeat split; auto. intros HI. rewrite HI in E0. cbn in E0. now apply blocktype_eqb_eq in E0.
+Qed.
+
+Lemma else_step c s F0 K' dl s3 : vs_ctrls s = F0 :: K' -> fst dl = OElse -> vstep c s dl = Some s3 ->
+  fr_is_if F0 = true /\ exists s2, vs_ctrls s2 = K' /\ s3 = push_ctrl false (fr_end F0) (fr_end F0) s2 /\
+    conc (opds F0) (unr F0) (bt_list (fr_end F0)).
+Proof.
+  intros HC HD. unfold vstep. rewrite HD. intros H. bind H. destruct p as [[res isif] s2].
+  destruct (pop_ctrl_spec _ _ _ _ _ _ HC E) as (-> & -> & HC2 & HCn). bind H. grd E0. inversion H; subst.
+  split; auto. exists s2. repeat split; auto.
+Qed.
+
+Lemma map_label_shape F F' K : shape F F' -> map fr_label (F' :: K) = map fr_label (F :: K).
+Proof. intros (_ & H & _). cbn. now rewrite H. Qed.
+
+Definition new_frame (is_if : bool) (l e : blocktype) : frame :=
+  {| fr_is_if := is_if; fr_label := l; fr_end := e; fr_unreachable := false; fr_opds := [] |}.
+
+(** ** The flat run reconstructs the structure and a typing derivation *)
+Lemma flat_sound c : forall n ops s F K sf,
+  length ops <= n -> vs_ctrls s = F :: K -> vrun_strict c s ops = Some sf -> vs_ctrls sf = [] ->
+  exists is d rest s' F' dl,
+    parse_seq (S n) (map fst ops) = Some (is, d, map fst rest) /\
+    vs_ctrls s' = F' :: K /\ shape F F' /\
+    (forall ts', conc (opds F') (unr F') ts' ->
+       exists ts, conc (opds F) (unr F) ts /\ seq_ok (mkC c (map fr_label (F :: K))) is ts ts') /\
+    fst dl = (if d then OElse else OEnd) /\ vrun_strict c s' (dl :: rest) = Some sf /\
+    length rest < length ops.
+Proof.
+  induction n as [|n IH]; intros ops s F K sf HL HC HR HF.
+  { destruct ops; [|cbn in HL; lia]. cbn in HR. inversion HR; subst. congruence. }
+  destruct ops as [|o rest]; [cbn in HR; inversion HR; subst; congruence|].
+  cbn [length] in HL. assert (HL' : length rest <= n) by lia.
+  destruct (vrun_strict_cons _ _ _ _ _ _ _ HC HR) as (s1 & EV & HR1).
+  destruct o as [op al]. destruct op as [| |bt|bt|bt|b].
+  - (* end *)
+    exists [], false, rest, s, F, (OEnd, al). cbn [map fst parse_seq]. repeat split; auto using shape_refl.
+    intros ts' Hts. exists ts'. split; auto. constructor.
+  - (* else *)
+    exists [], true, rest, s, F, (OElse, al). cbn [map fst parse_seq]. repeat split; auto using shape_refl.
+    intros ts' Hts. exists ts'. split; auto. constructor.
+  - (* block *)
+    cbn in EV. inversion EV; subst s1; clear EV.
+    assert (HC1 : vs_ctrls (push_ctrl false bt bt s) = new_frame false bt bt :: F :: K) by (cbn; now rewrite HC).
+    destruct (IH _ _ _ _ _ HL' HC1 HR1 HF) as (is1 & d1 & rest1 & s1' & F0' & dl1 & P1 & HC1' & HS1 & HT1 & HD1 & HR1' & HL1).
+    destruct (vrun_strict_cons _ _ _ _ _ _ _ HC1' HR1') as (s3 & EV2 & HR2).
+    destruct d1.
+    { destruct (else_step _ _ _ _ _ _ HC1' HD1 EV2) as [HI _]. destruct HS1 as (HS1 & _). rewrite HS1 in HI. discriminate. }
+    destruct (end_step _ _ _ _ _ _ HC1' HD1 EV2) as (s2 & HC2 & -> & HCn & _).
+    pose proof HS1 as (_ & _ & HE). cbn in HE. rewrite HE in *.
+    pose proof (push_opds_ctrls _ _ bt _ HC2) as HC3.
+    assert (HL1' : length rest1 <= n) by lia.
+    destruct (IH _ _ _ _ _ HL1' HC3 HR2 HF) as (is2 & d2 & rest2 & s' & F' & dl2 & P2 & HC' & HS2 & HT2 & HD2 & HR' & HL2).
+    exists (Block bt is1 :: is2), d2, rest2, s', F', dl2.
+    split. { cbn [map fst]. cbn [parse_seq]. rewrite P1. rewrite P2. reflexivity. }
+    split; auto. split. { eapply shape_trans; [|exact HS2]. apply shape_with_opds, shape_refl. }
+    split.
+    { intros ts' Hts'. destruct (HT2 _ Hts') as (ts3 & Hts3 & HSeq). cbn [with_opds fr_opds fr_unreachable] in Hts3.
+      apply conc_bt_inv in Hts3. destruct Hts3 as (ts0 & -> & Hts0). exists ts0. split; auto.
+      econstructor; [|exact HSeq]. constructor.
+      destruct (HT1 _ HCn) as (tsb & Hb & HSb). cbn in Hb. apply conc_nil_false in Hb. subst. exact HSb. }
+    split; auto. split; auto. cbn [length]. lia.
+  - (* loop *)
+    cbn in EV. inversion EV; subst s1; clear EV.
+    assert (HC1 : vs_ctrls (push_ctrl false None bt s) = new_frame false None bt :: F :: K) by (cbn; now rewrite HC).
+    destruct (IH _ _ _ _ _ HL' HC1 HR1 HF) as (is1 & d1 & rest1 & s1' & F0' & dl1 & P1 & HC1' & HS1 & HT1 & HD1 & HR1' & HL1).
+    destruct (vrun_strict_cons _ _ _ _ _ _ _ HC1' HR1') as (s3 & EV2 & HR2).
+    destruct d1.
+    { destruct (else_step _ _ _ _ _ _ HC1' HD1 EV2) as [HI _]. destruct HS1 as (HS1 & _). rewrite HS1 in HI. discriminate. }
+    destruct (end_step _ _ _ _ _ _ HC1' HD1 EV2) as (s2 & HC2 & -> & HCn & _).
+    pose proof HS1 as (_ & _ & HE). cbn in HE. rewrite HE in *.
+    pose proof (push_opds_ctrls _ _ bt _ HC2) as HC3.
+    assert (HL1' : length rest1 <= n) by lia.
+    destruct (IH _ _ _ _ _ HL1' HC3 HR2 HF) as (is2 & d2 & rest2 & s' & F' & dl2 & P2 & HC' & HS2 & HT2 & HD2 & HR' & HL2).
+    exists (Loop bt is1 :: is2), d2, rest2, s', F', dl2.
+    split. { cbn [map fst]. cbn [parse_seq]. rewrite P1. rewrite P2. reflexivity. }
+    split; auto. split. { eapply shape_trans; [|exact HS2]. apply shape_with_opds, shape_refl. }
+    split.
+    { intros ts' Hts'. destruct (HT2 _ Hts') as (ts3 & Hts3 & HSeq). cbn [with_opds fr_opds fr_unreachable] in Hts3.
+      apply conc_bt_inv in Hts3. destruct Hts3 as (ts0 & -> & Hts0). exists ts0. split; auto.
+      econstructor; [|exact HSeq]. constructor.
+      destruct (HT1 _ HCn) as (tsb & Hb & HSb). cbn in Hb. apply conc_nil_false in Hb. subst. exact HSb. }
+    split; auto. split; auto. cbn [length]. lia.
+  - (* if *)
+    cbn in EV. bind EV. rename v into s0. inversion EV; subst s1; clear EV.
+    destruct (pop_known_spec' _ _ _ _ _ HC E) as (Fp & HCp & HSp & HUp & HPp).
+    assert (HC1 : vs_ctrls (push_ctrl true bt bt s0) = new_frame true bt bt :: Fp :: K) by (cbn; now rewrite HCp).
+    destruct (IH _ _ _ _ _ HL' HC1 HR1 HF) as (is1 & d1 & rest1 & s1' & F0' & dl1 & P1 & HC1' & HS1 & HT1 & HD1 & HR1' & HL1).
+    destruct (vrun_strict_cons _ _ _ _ _ _ _ HC1' HR1') as (s3 & EV2 & HR2).
+    pose proof HS1 as (HI1 & _ & HE). cbn in HE, HI1.
+    rewrite (map_label_shape _ _ _ HSp) in HT1.
+    assert (HL1' : length rest1 <= n) by lia.
+    destruct d1.
+    + (* else branch present *)
+      destruct (else_step _ _ _ _ _ _ HC1' HD1 EV2) as (_ & s2 & HC2 & -> & HCn). rewrite HE in *.
+      assert (HC3 : vs_ctrls (push_ctrl false bt bt s2) = new_frame false bt bt :: Fp :: K) by (cbn; now rewrite HC2).
+      destruct (IH _ _ _ _ _ HL1' HC3 HR2 HF) as (is2 & d2 & rest2 & s3' & Fe' & dl2 & P2 & HC3' & HS3 & HT3 & HD2 & HR3' & HL2).
+      destruct (vrun_strict_cons _ _ _ _ _ _ _ HC3' HR3') as (s5 & EV4 & HR4).
+      rewrite (map_label_shape _ _ _ HSp) in HT3.
+      destruct d2.
+      { destruct (else_step _ _ _ _ _ _ HC3' HD2 EV4) as [HI _]. destruct HS3 as (HS3 & _). rewrite HS3 in HI. discriminate. }
+      destruct (end_step _ _ _ _ _ _ HC3' HD2 EV4) as (s4 & HC4 & -> & HCn2 & _).
+      pose proof HS3 as (_ & _ & HE3). cbn in HE3. rewrite HE3 in *.
+      pose proof (push_opds_ctrls _ _ bt _ HC4) as HC5.
+      assert (HL2' : length rest2 <= n) by lia.
+      destruct (IH _ _ _ _ _ HL2' HC5 HR4 HF) as (is3 & d3 & rest3 & s' & F' & dl3 & P3 & HC' & HS5 & HT5 & HD3 & HR' & HL3).
+      exists (If bt is1 is2 :: is3), d3, rest3, s', F', dl3.
+      split. { cbn [map fst]. cbn [parse_seq]. rewrite P1. rewrite P2. rewrite P3. reflexivity. }
+      split; auto. split. { eapply shape_trans; [exact HSp|]. eapply shape_trans; [|exact HS5]. apply shape_with_opds, shape_refl. }
+      split.
+      { intros ts' Hts'. destruct (HT5 _ Hts') as (ts5 & Hts5 & HSeq). cbn [with_opds fr_opds fr_unreachable] in Hts5.
+        apply conc_bt_inv in Hts5. destruct Hts5 as (ts0 & -> & Hts0). exists (T_i32 :: ts0). split; auto.
+        econstructor; [|rewrite (map_label_shape _ _ _ HSp) in HSeq; exact HSeq]. constructor.
+        - destruct (HT1 _ HCn) as (tsb & Hb & HSb). cbn in Hb. apply conc_nil_false in Hb. subst. exact HSb.
+        - destruct (HT3 _ HCn2) as (tsb & Hb & HSb). cbn in Hb. apply conc_nil_false in Hb. subst. exact HSb. }
+      split; auto. split; auto. cbn [length]. lia.
+    + (* no else: the result type must be empty *)
+      destruct (end_step _ _ _ _ _ _ HC1' HD1 EV2) as (s2 & HC2 & -> & HCn & HN). rewrite HE in *.
+      specialize (HN HI1). subst bt. cbn [push_opds] in HR2.
+      destruct (IH _ _ _ _ _ HL1' HC2 HR2 HF) as (is2 & d2 & rest2 & s' & F' & dl2 & P2 & HC' & HS2 & HT2 & HD2 & HR' & HL2).
+      exists (If None is1 [] :: is2), d2, rest2, s', F', dl2.
+      split. { cbn [map fst]. cbn [parse_seq]. rewrite P1. rewrite P2. reflexivity. }
+      split; auto. split. { eapply shape_trans; eauto. }
+      split.
+      { intros ts' Hts'. destruct (HT2 _ Hts') as (ts3 & Hts3 & HSeq). exists (T_i32 :: ts3). split; auto.
+        econstructor; [|rewrite (map_label_shape _ _ _ HSp) in HSeq; exact HSeq].
+        apply (T_If _ None is1 [] ts3).
+        - destruct (HT1 _ HCn) as (tsb & Hb & HSb). cbn in Hb. apply conc_nil_false in Hb. subst. exact HSb.
+        - constructor. }
+      split; auto. split; auto. cbn [length]. lia.
+  - (* basic *)
+    cbn in EV. destruct (vstep_basic_sound _ _ _ _ _ _ _ HC EV) as (F1 & HC1 & HS1 & HT1).
+    destruct (IH _ _ _ _ _ HL' HC1 HR1 HF) as (is1 & d1 & rest1 & s' & F' & dl1 & P1 & HC' & HS2 & HT2 & HD1 & HR' & HL1).
+    exists (Basic b :: is1), d1, rest1, s', F', dl1.
+    split. { cbn [map fst]. cbn [parse_seq]. rewrite P1. reflexivity. }
+    split; auto. split. { eapply shape_trans; eauto. }
+    split.
+    { intros ts' Hts'. destruct (HT2 _ Hts') as (ts2 & Hts2 & HSeq). destruct (HT1 _ Hts2) as (ts & Hts & HB).
+      exists ts. split; auto. econstructor; [constructor; exact HB|].
+      rewrite (map_label_shape _ _ _ HS1) in HSeq. exact HSeq. }
+    split; auto. split; auto. cbn [length]. lia.
+Qed.
